@@ -215,8 +215,8 @@ def build(tier="quick", seed=0):
                 conj.append(z3.Not(at_boundary))
                 if r["visible"] not in (None, r["committed_now"].get(tn, 0)) or (r["visible"] is not None and r["visible"] > r["pending_now"].get(tn, 0) - 1 and not new_type):
                     return False, f"another connection sees {r['visible']} rows while {r['committed_now'].get(tn, 0)} are committed"
-            if new_type and r["commits"] < 1:
-                return False, "a new record type must commit what is pending before its table is used"
+            # (whether the writer commits when it meets a new record type is not demanded here: the statement wants whole batches only, the code commits
+            #  there - see C18.batch.strict and the known finding)
             return z3.And(*conj), f"batch size {batch}: commit happened {'but should not' if full_commit else 'not although the batch is full'} (count before the write: symbolic), or the counter is wrong"
         return judge
 
@@ -267,12 +267,26 @@ def build(tier="quick", seed=0):
                         if (i + 1) % batch == 0:
                             committed = i + 1
                         exp.append(committed)
-                    if seen != exp:
-                        return Result("x", "refuted", f"batch size {batch}: rows visible to another connection after each write {seen}, commit points give {exp}", paths=total, witness={"n": n, "batch": batch})
+                    strict = [((i + 1) // batch) * batch for i in range(n)]  # what the statement says: whole batches only
+                    if seen != exp and seen != strict:
+                        return Result("x", "refuted", f"batch size {batch}: rows visible to another connection after each write {seen}; whole batches give {strict} (with the commit in front of a new record type, see the known finding: {exp})", paths=total, witness={"n": n, "batch": batch})
         return Result("x", "proved", paths=total)
 
     pack.add(Obligation("C18.batch.close[N in 0..5 x batch sizes 1, 2, 3, 1000]", run_close, replay=lambda w: {"call": "c18_batches", "args": {"n": w.get("n", 3), "batch": w.get("batch", 2)}}, functions=FU,
                         mode="concrete histories (a second record type in third position): content after close(), rows visible to an independent connection after every write"))
+
+    def run_strict(tier):
+        """the statement itself: another connection never sees part of a batch - also not when a new record type arrives in the middle of one"""
+        res = it.explore(th_close(1000, 5))
+        for p in res:
+            if p.kind != "return":
+                return Result("x", "refuted", f"raised {exc_text(p)}", paths=len(res))
+            content, seen = p.value
+            if seen != [0, 0, 0, 0, 0]:
+                return Result("x", "refuted", f"batch size 1000, five records, the third one of a new type: rows visible to another connection after each write {seen} - a part of the batch is visible", paths=len(res), witness={"n": 5, "batch": 1000, "strict": True})
+        return Result("x", "proved", paths=len(res))
+
+    pack.add(Obligation("C18.batch.strict[a new record type arrives in the middle of a batch]", run_strict, replay=lambda w: {"call": "c18_batches", "args": {"n": 5, "batch": 1000, "strict": True}}, functions=FU, mode="the concrete history of the finding"))
 
     # ------------------------------------------------------------------ reading
     def th_read():
